@@ -52,6 +52,8 @@ def one_case(rng, res, family):
             ch, desc = c05.gen_case(rng, root); desc.pop("attested", None)
         elif family == "c06":
             ch, desc = c06.gen_case(rng, root)
+            if desc.get("defect") == "subinspection_slow":
+                inspect_timeout = 5       # (as in c06.one_case: the command sleeps longer than this limit, shorter than the default)
         elif family == "c07":
             ch, desc, hooks, _failed = c07.gen_case(rng, root); inspect_timeout = c07.timeout_for(ch)
         elif family == "c16":
